@@ -2,7 +2,7 @@
    Only the directives of ExtrOcamlBasic are used (bool, option, unit, list, prod, sumbool, sumor);
    N, Z, positive and nat stay the extracted inductive datatypes. *)
 From Coq Require Import ExtrOcamlBasic.
-From EDP Require Import Base.Bytes Dist.Fragment Dist.PidAlloc Dist.Framing Term.Term Order.Cmp Order.HashStream Codec.Encode Codec.Decode Gen.DecoderArms Dist.Control Gen.ControlTable Dist.Md5 Dist.Handshake.
+From EDP Require Import Base.Bytes Dist.Fragment Dist.PidAlloc Dist.Framing Term.Term Order.Cmp Order.HashStream Codec.Encode Codec.Decode Gen.DecoderArms Dist.Control Gen.ControlTable Dist.Md5 Dist.Handshake Codec.DistHeader.
 Extraction Blacklist String List Nat.
 Extraction "model.ml" Fragment.run Fragment.fev N.of_nat N.to_nat N.add N.mul
   PidAlloc.allocate PidAlloc.make_ref
@@ -10,4 +10,5 @@ Extraction "model.ml" Fragment.run Fragment.fev N.of_nat N.to_nat N.add N.mul
   Term.wf Cmp.cmp_owned Cmp.cmp_borrowed Cmp.teqb Cmp.map_of_list Cmp.map_insert HashStream.hash_eqb
   Encode.encode Decode.decode Decode.parse Decode.parse_body DecoderArms.owned_arms DecoderArms.borrowed_arms
   Control.from_term Control.to_term Control.into_term ControlTable.control_table
-  Md5.md5 Handshake.hstep Handshake.hs_init.
+  Md5.md5 Handshake.hstep Handshake.hs_init
+  DistHeader.encode_multi DistHeader.decode_with_atom_cache DistHeader.long_of_coded DistHeader.atoms_of.
